@@ -50,6 +50,12 @@ def main():
     tier = args.tier if args.tier in ("quick", "thorough") else "quick"
     seed = int(os.environ.get("VERIF_SEED", "20260929"))
     mod = importlib.import_module(f"props.{pid.lower()}")
+    if not args.replay:
+        for kind in ("input", "unproved", "build"):
+            try:
+                os.remove(os.path.join(vlib.VERIF, "replays", f"{pid}-{kind}.json"))
+            except FileNotFoundError:
+                pass
     t0 = time.time()
     rng = random.Random(f"{seed}-{pid}-{tier}")
 
